@@ -142,8 +142,7 @@ def main():
              "layout": ck.rng.choice(["c", "c", "fortran", "transposed-view", "strided-view", "reversed-view", "real-dtype"]), "int_dtype": ck.rng.random() < 0.5}
         if kind in ("diagonal",) or ck.rng.random() < 0.2:
             c["diag"] = [m[i][i] for i in range(2 ** n)] if kind == "diagonal" else [[ck.rng.randint(-4, 4), ck.rng.randint(-4, 4)] for _ in range(2 ** n)]
-        if kind == "pauli":
-            c["unitary_like"] = True
+        c["unitary_like"] = True   # entropy and influence are defined for every operator (misnomer kept): always compared
         cases.append(c)
     res = ck.impl("c13", cases, per_case_s=120)
     req = []
@@ -177,8 +176,14 @@ def main():
         if c.get("unitary_like"):
             probs = [(a * a + b * b) / 4 ** c["n"] for a, b in W]
             ent = -sum(p * math.log2(p) for p in probs if p > 1e-12)
-            if abs(r["entropy"] - ent) > 1e-9:
+            if abs(r["entropy"] - ent) > 1e-9 * max(1.0, abs(ent)):
                 bad.append("quantum_fourier_entropy %r, defining sum %r" % (r["entropy"], ent))
+            # influence = sum over strings P of (number of non-identity letters of P) * |c_P|^2, P at the index of its base-4 digits
+            nn = c["n"]
+            wt = [sum(1 for k in range(nn) if (i // 4 ** k) % 4 != 0) for i in range(4 ** nn)]
+            infl = sum(w * p for w, p in zip(wt, probs))
+            if abs(r["influence"] - infl) > 1e-9 * max(1.0, abs(infl)):
+                bad.append("average_pauli_weight %r, defining sum %r" % (r["influence"], infl))
         if sum(1 for a, b in W if (a, b) != (0.0, 0.0)) >= 2:
             nt.add(mat_wire(c["matrix"]))
         if bad:
@@ -198,7 +203,6 @@ def main():
             k = int(ix.split()[0])
             if table[k] != sum(ch != "I" for ch in s):
                 ck.fail(None, "weight table at the index of %s is %d" % (s, table[k]), {"case": {"op": "weights", "n": n, "string": s}})
-    # influence against its defining sum on a few Pauli matrices
     # rejections
     shapes = [["full", [3, 3]], ["full", [2, 4]], ["full", [4, 2]], ["full", [1, 1]], ["full", [6, 6]], ["full", [4]], ["full", [2, 2, 2]], ["full", [5, 5]], ["full", [12, 12]],
               ["diag", [1]], ["diag", [3]], ["diag", [6]], ["diag", [2, 2]], ["diag", [12]]]
